@@ -513,6 +513,8 @@ impl VersionSet {
                         ));
                     }
                 }
+
+                return Err(error);
             }
         }
 
